@@ -54,14 +54,11 @@ Fixpoint bmatch_packet_descriptor (rules : list brule) (pd : bpdesc) : gen brule
   end.
 
 (* Ruler.match_schc_packet: the loop is SchcBytes.bmatch_schc_loop; after the loop
-   `raise RuleIDMatchError(rule_id=rule_id)` reads the loop variable rule_id, which is unbound when the
-   rule list is empty (UnboundLocalError) *)
+   `raise RuleIDMatchError(rule_id=rule_id)` (rule_id is bound to None before the loop since the fix of the
+   empty-rule-set defect: an empty rule list raises the rule-ID error like any other list without a matching id) *)
 Definition bmatch_schc_packet (rules : list brule) (s : buf) : res brule :=
-  match rules with
-  | [] => Exc UnboundLocalError
-  | _ => do o <- bmatch_schc_loop rules s ;;
-         match o with Some r => Ok r | None => Exc RuleIDMatchError end
-  end.
+  do o <- bmatch_schc_loop rules s ;;
+  match o with Some r => Ok r | None => Exc RuleIDMatchError end.
 
 (* ---- manager/manager.py ----------------------------------------------------------------------- *)
 (* for rule_descriptor in self.ruler.match_packet_descriptor(...):
@@ -206,7 +203,7 @@ Example mex_noid :
   (bcm_decompress [mex_rule1; mex_rule2] (mkbuf [16; 1; 2] 24 RIGHT 0) (Some Up),
    bcm_decompress [mex_rule1; mex_rule2] (mkbuf [128] 1 RIGHT 7) (Some Up),
    bcm_decompress [] (mkbuf [16; 1; 2] 24 RIGHT 0) (Some Up)) =
-  (Exc RuleIDMatchError, Exc RuleIDMatchError, Exc UnboundLocalError).
+  (Exc RuleIDMatchError, Exc RuleIDMatchError, Exc RuleIDMatchError).
 Proof. vm_compute. reflexivity. Qed.
 
 (* the front end SCHC([ctx('IPv6', [nocomp]), ctx('UDP', [other]), ctx('UDP', [rule1, rule2])]): the first context
